@@ -63,7 +63,7 @@ theorem reachFrom_append (P : Params) (S : SpecSt) (M : St) (a b : List Ev) :
 registration was kept alive (`now ≤ until`), the lookup answers `(c.node, c)` — for every backend shape. -/
 theorem finds_latest_handshake {P : Params} (hv : P.v = repaired) (httl : 0 < P.ttl) (evs : List Ev)
     {x : Nat} {c : Conn} {u : Nat}
-    (hl : FMap.lookup (reach P evs).1.latest x = some (c, u)) (hu : (reach P evs).1.now ≤ u) :
+    (hl : LMap.lookup (reach P evs).1.latest x = some (c, u)) (hu : (reach P evs).1.now ≤ u) :
     findClientNode P (reach P evs).2.now (reach P evs).2.store x = .found c.node c :=
   find_live hv (reach_inv hv httl evs) hl hu
 
@@ -87,57 +87,152 @@ theorem not_connected_after_last_close {P : Params} (hv : P.v = repaired) (httl 
   · exact he
   · exact absurd hcx (hclosed c hco)
 
-/-- Closing another connection leaves the reference obligation of `x` untouched. -/
-theorem latest_after_close {ttl : Nat} {S : SpecSt} {x : Nat} {c c' : Conn} {u : Nat} (r : Bool)
-    (hl : FMap.lookup S.latest x = some (c, u)) (hne : c' ≠ c) :
-    FMap.lookup (specStep ttl S r (.close c')).latest x = some (c, u) := by
+/-- The end of another connection — by any of the paths of `CloseKind`, whatever the entry point reports —
+leaves the reference obligation of `x` untouched. -/
+theorem latest_after_close {ttl : Nat} {S : SpecSt} {x : Nat} {c c' : Conn} {u : Nat} (k : CloseKind) (r : Bool)
+    (hl : LMap.lookup S.latest x = some (c, u)) (hne : c' ≠ c) :
+    LMap.lookup (specStep ttl S r (.close c' k)).latest x = some (c, u) := by
   simp only [specStep]
-  cases hl' : FMap.lookup S.latest c'.client with
-  | none => exact hl
-  | some p =>
-    simp only
-    by_cases hp : p.1 = c'
-    · simp only [hp, if_true]
-      by_cases hx : c'.client = x
-      · subst hx; rw [hl] at hl'; injection hl' with hl'; subst hl'; exact absurd hp.symm hne
-      · rw [FMap.lookup_erase_ne _ hx]; exact hl
-    · simp only [hp, if_false]; exact hl
+  cases r with
+  | false => exact hl
+  | true =>
+    simp only [if_true, specClose]
+    cases hl' : LMap.lookup S.latest c'.client with
+    | none => exact hl
+    | some p =>
+      simp only
+      by_cases hp : p.1 = c'
+      · simp only [hp, if_true]
+        by_cases hx : c'.client = x
+        · subst hx; rw [hl] at hl'; injection hl' with hl'; subst hl'; exact absurd hp.symm hne
+        · rw [LMap.lookup_erase_ne _ hx]; exact hl
+      · simp only [hp, if_false]; exact hl
 
-/-- **Late cleanup in any order.**  After any history in which `x`'s registration on `c` is valid, any
-sequence of `CloseConnection` calls for connections other than `c` — on any nodes, in any order (old nodes
-noticing late that the client moved) — leaves the lookup at `(c.node, c)`. -/
+/-- **Late cleanup in any order, by any path.**  After any history in which `x`'s registration on `c` is valid,
+any sequence of connection endings for connections other than `c` — on any nodes, in any order, each by any of
+the paths (direct `CloseConnection`, adapter read-loop end, Disconnect command, heartbeat-timeout sweep): old nodes
+noticing late that the client moved — leaves the lookup at `(c.node, c)`. -/
 theorem late_cleanups_any_order {P : Params} (hv : P.v = repaired) (httl : 0 < P.ttl) (evs : List Ev)
     {x : Nat} {c : Conn} {u : Nat}
-    (hl : FMap.lookup (reach P evs).1.latest x = some (c, u)) (hu : (reach P evs).1.now ≤ u)
-    (late : List Conn) (hlate : ∀ c', c' ∈ late → c' ≠ c) :
-    findClientNode P (reach P (evs ++ late.map .close)).2.now (reach P (evs ++ late.map .close)).2.store x
-      = .found c.node c := by
-  have key : ∀ (late : List Conn) (S : SpecSt) (M : St), (∀ c', c' ∈ late → c' ≠ c) →
-      FMap.lookup S.latest x = some (c, u) → S.now ≤ u →
-      FMap.lookup (reachFrom P S M (late.map .close)).1.latest x = some (c, u) ∧
-      (reachFrom P S M (late.map .close)).1.now ≤ u := by
+    (hl : LMap.lookup (reach P evs).1.latest x = some (c, u)) (hu : (reach P evs).1.now ≤ u)
+    (late : List (Conn × CloseKind)) (hlate : ∀ p, p ∈ late → p.1 ≠ c) :
+    findClientNode P (reach P (evs ++ late.map (fun p => .close p.1 p.2))).2.now
+      (reach P (evs ++ late.map (fun p => .close p.1 p.2))).2.store x = .found c.node c := by
+  have key : ∀ (late : List (Conn × CloseKind)) (S : SpecSt) (M : St), (∀ p, p ∈ late → p.1 ≠ c) →
+      LMap.lookup S.latest x = some (c, u) → S.now ≤ u →
+      LMap.lookup (reachFrom P S M (late.map (fun p => .close p.1 p.2))).1.latest x = some (c, u) ∧
+      (reachFrom P S M (late.map (fun p => .close p.1 p.2))).1.now ≤ u := by
     intro late
     induction late with
     | nil => intro S M _ h1 h2; exact ⟨h1, h2⟩
-    | cons c' r ih =>
+    | cons p r ih =>
       intro S M hne h1 h2
       simp only [List.map_cons, reachFrom]
       refine ih _ _ (fun d hd => hne d (List.mem_cons_of_mem _ hd)) ?_ ?_
-      · exact latest_after_close _ h1 (hne c' (List.mem_cons_self ..))
-      · simpa [specStep] using h2
+      · exact latest_after_close _ _ h1 (hne p (List.mem_cons_self ..))
+      · have : (specStep P.ttl S (stepOk M (.close p.1 p.2)) (.close p.1 p.2)).now = S.now := by
+          simp only [specStep]; split <;> rfl
+        rw [this]; exact h2
   have hk := key late (reach P evs).1 (reach P evs).2 hlate hl hu
-  have he : reach P (evs ++ late.map .close) =
-      reachFrom P (reach P evs).1 (reach P evs).2 (late.map .close) := reachFrom_append P _ _ evs _
+  have he : reach P (evs ++ late.map (fun p => .close p.1 p.2)) =
+      reachFrom P (reach P evs).1 (reach P evs).2 (late.map (fun p => .close p.1 p.2)) := reachFrom_append P _ _ evs _
   rw [he]
-  have hinv := reachFrom_inv hv httl (late.map .close) _ _ (reach_inv hv httl evs)
+  have hinv := reachFrom_inv hv httl (late.map (fun p => .close p.1 p.2)) _ _ (reach_inv hv httl evs)
   exact find_live hv hinv hk.1 hk.2
+
+/-- **Every way a connection ends cleans up.**  Whatever the history, after the event `close c k` of ANY kind
+that reports having closed the connection (direct call and read-loop end always do; the Disconnect command and
+the sweep do when the registry still held the connection) the records of `c` are gone: the lookup of `c`'s
+client does not answer `c` any more — and answers "not connected" if `c` was the client's last open connection. -/
+theorem closed_connection_is_forgotten {P : Params} (hv : P.v = repaired) (httl : 0 < P.ttl) (evs : List Ev)
+    (c : Conn) (k : CloseKind) (hr : stepOk (reach P evs).2 (.close c k) = true) :
+    (∀ n, findClientNode P (reach P (evs ++ [.close c k])).2.now (reach P (evs ++ [.close c k])).2.store c.client
+        ≠ .found n c) ∧
+    ((∀ d, d ∈ (reach P evs).1.opened → d.client = c.client → d = c) → c.client ≠ 0 →
+      findClientNode P (reach P (evs ++ [.close c k])).2.now (reach P (evs ++ [.close c k])).2.store c.client
+        = .notFound) := by
+  have hop : (reach P (evs ++ [.close c k])).1.opened = rm c (reach P evs).1.opened := by
+    show (reachFrom P _ _ (evs ++ [.close c k])).1.opened = _
+    rw [reachFrom_append]
+    simp only [reachFrom, specStep]
+    rw [show stepOk (reachFrom P SpecSt.init St.init evs).2 (.close c k) = true from hr]
+    rfl
+  constructor
+  · intro n hf
+    have := (never_reports_closed hv httl (evs ++ [.close c k]) hf).1
+    rw [hop, mem_rm] at this
+    exact this.2 rfl
+  · intro hlast hx
+    refine not_connected_after_last_close hv httl _ hx ?_
+    intro d hd hdc
+    rw [hop, mem_rm] at hd
+    exact hd.2 (hlast d hd.1 hdc)
+
+/-! ## Lookups are read-only, however their two storage round trips interleave with other events -/
+
+/-- **A lookup has no effect.**  Neither round trip of `FindClientNode` (the index read `lookBegin`, the record
+read `lookEnd`) changes the shared store or any node's registry — whatever happens between them. -/
+theorem lookup_is_read_only (P : Params) (st : St) (j x : Nat) :
+    (step P st (.lookBegin j x)).store = st.store ∧ (step P st (.lookBegin j x)).nodes = st.nodes ∧
+    (step P st (.lookEnd j x)).store = st.store ∧ (step P st (.lookEnd j x)).nodes = st.nodes ∧
+    (step P st (.lookBegin j x)).now = st.now ∧ (step P st (.lookEnd j x)).now = st.now :=
+  ⟨rfl, rfl, rfl, rfl, rfl, rfl⟩
+
+/-- A lookup whose two round trips are adjacent answers what `findClientNode` (the atomic lookup the
+observations use) answers. -/
+theorem unsplit_lookup {P : Params} (hv : P.v = repaired) (httl : 0 < P.ttl) (evs : List Ev) (j x : Nat)
+    (hx : x ≠ 0) :
+    lookupAnswer P (lookupBegin (reach P evs).2 j x) j x =
+      findClientNode P (reach P evs).2.now (reach P evs).2.store x := by
+  have h := reach_inv hv httl evs
+  unfold lookupAnswer lookupBegin findClientNode indexRead
+  simp only [FMap.lookup_insert_eq, hx, if_false]
+  cases hf : find (reach P evs).2.now (reach P evs).2.store (.client x) with
+  | none => rfl
+  | some e =>
+    obtain ⟨c, hval, _⟩ := h.store.client x e (find_some hf)
+    simp only [hval]
+
+def isLookup : Ev → Bool
+  | .lookBegin _ _ => true
+  | .lookEnd _ _ => true
+  | _ => false
+
+/-- **Lookups never make a client unfindable.**  After any history in which `x`'s registration on `c` is valid,
+any number of lookups by any nodes for any clients — begun, ended, left in flight, in any order — leaves the
+lookup at `(c.node, c)`.  (Together with `lookup_finds_current_node`, whose histories contain split lookups
+interleaved with every other event.) -/
+theorem lookups_keep_findable {P : Params} (hv : P.v = repaired) (httl : 0 < P.ttl) (evs : List Ev)
+    {x : Nat} {c : Conn} {u : Nat}
+    (hl : LMap.lookup (reach P evs).1.latest x = some (c, u)) (hu : (reach P evs).1.now ≤ u)
+    (qs : List Ev) (hq : ∀ e, e ∈ qs → isLookup e = true) :
+    findClientNode P (reach P (evs ++ qs)).2.now (reach P (evs ++ qs)).2.store x = .found c.node c := by
+  have key : ∀ (qs : List Ev) (S : SpecSt) (M : St), (∀ e, e ∈ qs → isLookup e = true) →
+      (reachFrom P S M qs).1 = S := by
+    intro qs
+    induction qs with
+    | nil => intro S M _; rfl
+    | cons e r ih =>
+      intro S M hq
+      have he := hq e (List.mem_cons_self ..)
+      simp only [reachFrom]
+      have hs : specStep P.ttl S (stepOk M e) e = S := by
+        cases e <;> simp [isLookup] at he <;> rfl
+      rw [hs]
+      exact ih _ _ (fun d hd => hq d (List.mem_cons_of_mem _ hd))
+  have he : reach P (evs ++ qs) = reachFrom P (reach P evs).1 (reach P evs).2 qs := reachFrom_append P _ _ evs _
+  have hinv := reachFrom_inv hv httl qs _ _ (reach_inv hv httl evs)
+  rw [he]
+  have hk := key qs (reach P evs).1 (reach P evs).2 hq
+  rw [hk] at hinv
+  exact find_live hv hinv hl hu
 
 /-- **Heartbeats keep the registration alive.**  After any history in which `x`'s registration on `c` is
 valid, any number of rounds "clock advances by at most `ttl`, then `c` sends a heartbeat" and a final advance of
 at most `ttl` leave the lookup at `(c.node, c)`. -/
 theorem heartbeats_keep_alive {P : Params} (hv : P.v = repaired) (httl : 0 < P.ttl) (evs : List Ev)
     {x : Nat} {c : Conn} {u : Nat}
-    (hl : FMap.lookup (reach P evs).1.latest x = some (c, u))
+    (hl : LMap.lookup (reach P evs).1.latest x = some (c, u))
     (gaps : List Nat) (hg : ∀ d, d ∈ gaps → d ≤ P.ttl) (last : Nat) (hlast : last ≤ P.ttl)
     (hfirst : ∀ d, gaps.head? = some d → (reach P evs).1.now + d ≤ u)
     (hnone : gaps = [] → (reach P evs).1.now + last ≤ u) :
@@ -147,9 +242,9 @@ theorem heartbeats_keep_alive {P : Params} (hv : P.v = repaired) (httl : 0 < P.t
   have hcx : c.client = x := ((reach_inv hv httl evs).live x c u hl).1
   -- one round keeps the obligation and makes `until = now + ttl`
   have key : ∀ (gaps : List Nat) (S : SpecSt) (M : St) (u : Nat), (∀ d, d ∈ gaps → d ≤ P.ttl) →
-      FMap.lookup S.latest x = some (c, u) → (∀ d, gaps.head? = some d → S.now + d ≤ u) →
+      LMap.lookup S.latest x = some (c, u) → (∀ d, gaps.head? = some d → S.now + d ≤ u) →
       (gaps = [] → S.now + last ≤ u) →
-      ∃ u', FMap.lookup (reachFrom P S M (gaps.flatMap (fun d => [Ev.tick d, Ev.hb c]))).1.latest x = some (c, u') ∧
+      ∃ u', LMap.lookup (reachFrom P S M (gaps.flatMap (fun d => [Ev.tick d, Ev.hb c]))).1.latest x = some (c, u') ∧
         (reachFrom P S M (gaps.flatMap (fun d => [Ev.tick d, Ev.hb c]))).1.now + last ≤ u' := by
     intro gaps
     induction gaps with
@@ -160,7 +255,7 @@ theorem heartbeats_keep_alive {P : Params} (hv : P.v = repaired) (httl : 0 < P.t
       simp only [List.flatMap_cons, List.cons_append, List.nil_append, reachFrom]
       refine ih _ _ (S.now + d + P.ttl) (fun e he => hd e (List.mem_cons_of_mem _ he)) ?_ ?_ ?_
       · simp only [specStep, hcx ▸ h1, if_true, hdu]
-        rw [hcx]; exact FMap.lookup_insert_eq _ _ _
+        rw [hcx]; exact LMap.lookup_insert_eq _ _ _
       · intro e he
         have := hd e (List.mem_cons_of_mem _ (by
           cases r with
@@ -351,9 +446,45 @@ theorem flow_FindClientNode : Gen.Flow.FindClientNode =
      "end",
      "return state.NodeID, connectionID, nil"] := by decide
 
-/-- `CloseConnection` = `closeConnection`: connMap, registry, then `UnregisterConnection`. -/
+/-- `CloseConnection` = `closeConnection`: connMap, registry (`RemoveControlConnection`), then `UnregisterConnection` —
+and no registry query in between or before (the extractor lists `getControlConnectionByConnID`, `GetControlConnection`,
+`clientRegistry.GetByConnID/GetByClientID` too; none occurs). -/
 theorem skel_CloseConnection : Gen.Skel.CloseConnection =
     ["delete", "RemoveControlConnection", "RemoveTunnelConnection", "connStateStore.UnregisterConnection"] := by decide
+
+/-- `FindClientNode` reads only: one `Get` of the index, then `GetConnectionState` (one `Get` of the record; its only
+write is the removal of the very record it found expired — a key that names that connection id and nothing else). -/
+theorem skel_lookup_reads :
+    Gen.Skel.FindClientNode_storage = ["storage.Get", "GetConnectionState"] ∧
+    Gen.Skel.GetConnectionState_storage = ["storage.Get", "storage.Delete"] ∧
+    Gen.Skel.clientIndexPointsTo_storage = ["storage.Get"] := by decide
+
+/-- **Every production path by which a connection ends reaches `CloseConnection`, and `CloseConnection` unregisters
+without consulting the registry** (no `GetByConnID`/`getControlConnectionByConnID` before the unregister: the
+sweep, the eviction and the shutdown have already emptied the registry when it runs):
+* adapter read loop end (peer EOF, read error, failed initialisation): deferred `cleanupConnection` → `CloseConnection`;
+* WebSocket module: deferred `CloseConnection`;
+* Disconnect command: registry lookup, then `CloseConnection`;
+* heartbeat-timeout sweep: `CleanupStale` unindexes and drops the connection FIRST, then the callback → `CloseConnection`,
+  then the stream is closed (`sweepStale`);
+* duplicate-login eviction `KickOldControlConnection`: registry only + stream close (`kickOld`); the read loop's
+  `CloseConnection` follows;
+* shutdown `onClose`: registries and connMap emptied, streams closed (`shutdownNode`), no store access; the adapters'
+  `CloseConnection` calls follow. -/
+theorem skel_closing_paths :
+    Gen.Skel.BaseAdapter_handleConnection = ["b.cleanupConnection", "b.initializeConnection", "b.connectionReadLoop"] ∧
+    Gen.Skel.BaseAdapter_cleanupConnection = ["session.CloseConnection", "closer.Close"] ∧
+    Gen.Skel.WebSocketModule_handleConnection = ["session.CloseConnection", "wsConn.Close"] ∧
+    Gen.Skel.handleDisconnectCommand = ["clientRegistry.GetByConnID", "CloseConnection"] ∧
+    Gen.Skel.cleanupStaleConnections =
+      ["clientRegistry.CleanupStale", "cloudControl.DisconnectClientIfMatch", "CloseConnection"] ∧
+    Gen.Skel.ClientRegistry_CleanupStale =
+      ["mu.Lock", "IsStale", "unindexLocked", "delete", "mu.Unlock", "closeFn", "stream.Close"] ∧
+    Gen.Skel.KickOldControlConnection = ["clientRegistry.KickOldConnection"] ∧
+    Gen.Skel.ClientRegistry_KickOldConnection =
+      ["mu.Lock", "unindexLocked", "delete", "mu.Unlock", "sendKickFn", "stream.Close"] ∧
+    Gen.Skel.SessionManager_onClose = ["clientRegistry.Close", "tunnelRegistry.Close", "connLock.Lock", "connLock.Unlock"] ∧
+    Gen.Skel.ClientRegistry_Close = ["mu.Lock", "mu.Unlock", "Stream.Close"] := by decide
 
 /-- `handleHandshake` = `handleHandshake`/`hsStore`/`hsNode`: register the control connection, authenticate,
 answer, then for the node-local old connection unregister → remove, `UpdateAuth`, register. -/
@@ -403,7 +534,7 @@ def c0 : Conn := ⟨0, 7, 0⟩
 def c1 : Conn := ⟨1, 7, 0⟩
 
 /-- Reconnect to node 1, node 0 cleans up late. -/
-def reconnectLateCleanup : List Ev := [.open c0, .hs c0 true, .open c1, .hs c1 true, .close c0]
+def reconnectLateCleanup : List Ev := [.open c0, .hs c0 true, .open c1, .hs c1 true, .close c0 .sweep]
 
 /-- As found: `UnregisterConnection` deleted the index unconditionally — the late cleanup on node 0 erases
 the location registered by node 1. -/
@@ -454,14 +585,14 @@ theorem refresh_check_then_act_witness :
 /-! ## Non-vacuity -/
 
 /-- The history above ends with clause (A) active: the reference demands `(node 1, c1)` … -/
-example : FMap.lookup (reach ⟨repaired, .ptr, 1000⟩ reconnectLateCleanup).1.latest 7 = some (c1, 1000) := by decide
+example : LMap.lookup (reach ⟨repaired, .ptr, 1000⟩ reconnectLateCleanup).1.latest 7 = some (c1, 1000) := by decide
 
 /-- … and that is what the repaired model answers on every node, routing included. -/
 example : (run ⟨repaired, .ptr, 1000⟩ 2 [7] reconnectLateCleanup).getLast? =
     some (true, [(7, [(.found 1 c1, .cross 1), (.found 1 c1, .loc)])]) := by decide
 
 /-- `holds` is not trivially true: an observation that still names the old node fails. -/
-example : holds 1000 2 [7] [.open c0, .hs c0 true, .close c0]
+example : holds 1000 2 [7] [.open c0, .hs c0 true, .close c0 .eof]
     [(true, [(7, [(.notFound, .none_), (.notFound, .none_)])]),
      (true, [(7, [(.found 0 c0, .loc), (.found 0 c0, .cross 0)])]),
      (true, [(7, [(.found 0 c0, .none_), (.found 0 c0, .cross 0)])])] = false := by decide
